@@ -11,3 +11,5 @@ func resetPool(maxWorkers int, idle time.Duration) {}
 func poolWorkers() int                             { return watcherGoroutines() }
 func pending() int                                 { return -1 }
 func heapSane() bool                               { return true }
+
+func withPoolLock(f func()) { f() }
